@@ -53,7 +53,10 @@ def r1_only_tracked_paths_deleted(repo=None):
 
         def rec_path(e):
             e = pyutil.dealias(e, env) if isinstance(e, ast.Name) else e
-            return isinstance(e, ast.Attribute) and e.attr == "path" and isinstance(e.value, ast.Name) and e.value.id in recs
+            if isinstance(e, ast.Attribute) and e.attr == "path" and isinstance(e.value, ast.Name):
+                base = pyutil.dealias(e.value, env)         # `rec = <the popped record>` handed back by a helper: a copy of the name
+                return isinstance(base, ast.Name) and base.id in recs
+            return False
 
         def rec_dir(e):
             e = pyutil.dealias(e, env) if isinstance(e, ast.Name) else e
@@ -765,12 +768,21 @@ def r6_scan_agrees_with_event_filter(repo=None):
                 continue
             n += 1
             filt = None
+            some_filter = []
             for g_ in pyfront.walk_no_nested(f):
                 if isinstance(g_, (ast.GeneratorExp, ast.ListComp, ast.SetComp)) and len(g_.generators) == 1:
                     it = g_.generators[0].iter
                     if it is c or (isinstance(it, ast.Name) and it.id in names):
                         tgt = g_.generators[0].target
                         for cond in g_.generators[0].ifs:
+                            some_filter.append(cond)
+                            fn_ = cond.func if isinstance(cond, ast.Call) else None
+                            if isinstance(fn_, ast.Name):
+                                # a local holding the bound method: `accepts = self.event_handler._match_path`
+                                ds_ = [a_.value for a_ in pyfront.walk_no_nested(f) if isinstance(a_, ast.Assign) and any(
+                                    isinstance(t, ast.Name) and t.id == fn_.id for t in a_.targets)]
+                                if len(ds_) == 1 and isinstance(ds_[0], ast.Attribute):
+                                    cond = ast.Call(func=ds_[0], args=cond.args, keywords=cond.keywords)
                             if isinstance(cond, ast.Call) and isinstance(cond.func, ast.Attribute) and cond.func.attr == "_match_path" \
                                     and len(cond.args) == 2 and isinstance(tgt, ast.Name) and isinstance(cond.args[0], ast.Name) \
                                     and cond.args[0].id == tgt.id and pyfront.const(cond.args[1]) is True and isinstance(g_.elt, ast.Name) \
@@ -781,6 +793,9 @@ def r6_scan_agrees_with_event_filter(repo=None):
             site = "%s:%s %s `%s`" % (m.rel, c.lineno, q, norm(ast.unparse(c))[:60])
             if filt is not None and not other_uses:
                 r.ok(site, "the windowed listing is used only through `%s`" % norm(ast.unparse(filt))[:80])
+            elif filt is None and some_filter:
+                raise AnalysisError("%s: the windowed listing is filtered by `%s`, which was not recognised as the handler's own path match" % (
+                    q, norm(ast.unparse(some_filter[0]))[:60]))
             else:
                 r.violation(m.rel, q, norm(ast.unparse(c))[:80], "a listing with a time window forward fills (it includes the latest metadata "
                             "file named before the start time), and its files are taken into the ringbuffer unfiltered, but the "
